@@ -13,6 +13,10 @@ func c05Gen(r *Rand, tier string, scale int, emit func(Fields)) {
 	}
 	for n := 0; n < scale; n++ {
 		o := dspGenOpt{track: true, ends: n%4 == 3}
-		emit(dspGenCase(r, o, n < 3).encode())
+		c := dspGenCase(r, o, n < 3)
+		if n%3 == 1 {
+			c.late = true // EnableStateTracking() AFTER Connect(), before the traffic
+		}
+		emit(c.encode())
 	}
 }
